@@ -4,5 +4,5 @@
 import sys
 sys.path[:0] = ['/repo' + "/pulser-core", '/repo' + "/pulser-simulation", "/verif"]
 from symx.replay import replay
-sys.exit(replay(check='checks.c13', kernel='history', shape={'device': 'mock', 'k': 4, 'first': 1},
-                assignment={'op1': 0, 'op2': 7, 'op3': 6}, label='typestate:SLM'))
+sys.exit(replay(check='checks.c13', kernel='history', shape={'device': 'mock', 'k': 2, 'first': 1, 'prefix': ['D_g', 'ADD_g']},
+                assignment={'op3': 6}, label='typestate:SLM'))
